@@ -25,9 +25,16 @@ RECURSIVE SumTo(_, _)
 SumTo(f, n) == IF n = 0 THEN 0 ELSE f[n] + SumTo(f, n - 1)
 Abs(x) == IF x < 0 THEN -x ELSE x
 Zero2(n) == [x \in 1..n |-> [y \in 1..n |-> 0]]
-CvOf(c, S) == IF c.con THEN Cv(S, c.g, c.cap) ELSE 0
-GOf(c) == IF c.con THEN c.g ELSE [x \in 1..c.n |-> 0]
-CapOf(c) == IF c.con THEN c.cap ELSE 0
+\* ncon in 0..2 violation components: loads g against cap, loads g2 against cap2; the optimisers compare the TOTAL
+\* violation, a solution reports the components
+CvVec(c, S) == IF c.ncon = 0 THEN <<>> ELSE IF c.ncon = 1 THEN <<Cv(S, c.g, c.cap)>> ELSE <<Cv(S, c.g, c.cap), Cv(S, c.g2, c.cap2)>>
+CvOf(c, S) == SumTo(CvVec(c, S), c.ncon)
+Better2(c, T, S) == Better(CvOf(c, T), Score(T, c.a, c.b), CvOf(c, S), Score(S, c.a, c.b))
+NeighboursOf(c, S) == Neighbours(S, c.n)
+LocalOpt2(c, S) == \A T \in NeighboursOf(c, S) : ~Better2(c, T, S)
+GlobalOpt2(c, S) == \A T \in KSubsets(c.n, c.k) : ~Better2(c, T, S)
+Improving2(c, S) == {T \in NeighboursOf(c, S) : Better2(c, T, S)}
+Best2(c, TS) == {T \in TS : \A U \in TS : ~Better2(c, U, T)}
 
 Shape(c, decn) == IF Len(decn) # c.k THEN "subset-size"
                   ELSE IF \E p \in 1..Len(decn) : decn[p] \notin 0..(c.n - 1) THEN "member-outside-candidate-set"
@@ -39,11 +46,12 @@ SubsetVerdict(c) ==
     IF c.err # "none" THEN "exception-on-valid-problem"
     ELSE IF Shape(c, c.decn) # "ok" THEN Shape(c, c.decn)
     ELSE IF ~c.dtypeok THEN "decision-dtype"
-    ELSE IF ~c.lat \/ c.obj # Score(S, c.a, c.b) THEN "reported-objective-is-not-a-fresh-evaluation"
-    ELSE IF c.cv # CvOf(c, S) THEN "reported-constraint-violation-is-not-a-fresh-evaluation"
+    ELSE IF c.obj # Score(S, c.a, c.b) THEN "reported-objective-is-not-a-fresh-evaluation"
+    ELSE IF c.cv # CvVec(c, S) THEN "reported-constraint-violation-is-not-a-fresh-evaluation"
+    ELSE IF ~c.lat THEN "reported-values-differ-from-the-problem's-own-evaluation"
     ELSE IF ~c.unchanged THEN "problem-object-modified"
-    ELSE IF c.req = "local" /\ ~LocalOpt(S, c.n, c.a, c.b, GOf(c), CapOf(c)) THEN "stopped-where-a-single-exchange-improves"
-    ELSE IF c.req = "global" /\ ~GlobalOpt(S, c.n, c.k, c.a, c.b, GOf(c), CapOf(c)) THEN "not-the-brute-force-optimum"
+    ELSE IF c.req = "local" /\ ~LocalOpt2(c, S) THEN "stopped-where-a-single-exchange-improves"
+    ELSE IF c.req = "global" /\ ~GlobalOpt2(c, S) THEN "not-the-brute-force-optimum"
     ELSE "ok"
 
 ClimbVerdict(c) ==
@@ -51,20 +59,22 @@ ClimbVerdict(c) ==
         St(s) == ToSet1(c.states[s])
     IN IF c.err # "none" THEN "exception-on-valid-problem"
        ELSE IF \E s \in 1..ns : Shape(c, c.states[s]) # "ok" THEN Shape(c, c.states[CHOOSE s \in 1..ns : Shape(c, c.states[s]) # "ok"])
-       ELSE IF \E s \in 1..(ns - 1) : St(s + 1) \notin BestOf(ImprovingOf(St(s), c.n, c.a, c.b, GOf(c), CapOf(c)), c.a, c.b, GOf(c), CapOf(c))
+       ELSE IF \E s \in 1..(ns - 1) : St(s + 1) \notin Best2(c, Improving2(c, St(s)))
             THEN "step-is-not-a-steepest-exchange"
-       ELSE IF ~LocalOpt(St(ns), c.n, c.a, c.b, GOf(c), CapOf(c)) THEN "stopped-where-a-single-exchange-improves"
+       ELSE IF ~LocalOpt2(c, St(ns)) THEN "stopped-where-a-single-exchange-improves"
        ELSE IF Shape(c, c.decn) # "ok" THEN Shape(c, c.decn)
        ELSE IF ToSet1(c.decn) # St(ns) THEN "returned-decision-is-not-the-last-accepted"
        ELSE IF ~c.dtypeok THEN "decision-dtype"
-       ELSE IF ~c.lat \/ c.obj # Score(St(ns), c.a, c.b) THEN "reported-objective-is-not-a-fresh-evaluation"
-       ELSE IF c.cv # CvOf(c, St(ns)) THEN "reported-constraint-violation-is-not-a-fresh-evaluation"
+       ELSE IF c.obj # Score(St(ns), c.a, c.b) THEN "reported-objective-is-not-a-fresh-evaluation"
+       ELSE IF c.cv # CvVec(c, St(ns)) THEN "reported-constraint-violation-is-not-a-fresh-evaluation"
+       ELSE IF ~c.lat THEN "reported-values-differ-from-the-problem's-own-evaluation"
        ELSE IF ~c.unchanged THEN "problem-object-modified"
        ELSE "ok"
 
 \* constraint-domination on logged integers
-Dominates(t, s) == \/ t.cv < s.cv
-                   \/ t.cv = s.cv /\ t.o1 <= s.o1 /\ t.o2 <= s.o2 /\ (t.o1 < s.o1 \/ t.o2 < s.o2)
+Tot(v) == SumTo(v, Len(v))
+Dominates(t, s) == \/ Tot(t.cv) < Tot(s.cv)
+                   \/ Tot(t.cv) = Tot(s.cv) /\ t.o1 <= s.o1 /\ t.o2 <= s.o2 /\ (t.o1 < s.o1 \/ t.o2 < s.o2)
 FrontVerdict(c) ==
     LET ns == Len(c.sols) IN
     IF c.err # "none" THEN "exception-on-valid-problem"
@@ -74,7 +84,7 @@ FrontVerdict(c) ==
     ELSE IF ~c.lat \/ \E s \in 1..ns : \/ c.sols[s].o1 # Score(ToSet1(c.sols[s].decn), c.a, c.b)
                                        \/ c.sols[s].o2 # Score(ToSet1(c.sols[s].decn), c.a2, Zero2(c.n))
          THEN "reported-objective-is-not-a-fresh-evaluation"
-    ELSE IF \E s \in 1..ns : c.sols[s].cv # CvOf(c, ToSet1(c.sols[s].decn)) THEN "reported-constraint-violation-is-not-a-fresh-evaluation"
+    ELSE IF \E s \in 1..ns : c.sols[s].cv # CvVec(c, ToSet1(c.sols[s].decn)) THEN "reported-constraint-violation-is-not-a-fresh-evaluation"
     ELSE IF \E s, t \in 1..ns : s # t /\ Dominates(c.sols[t], c.sols[s]) THEN "front-member-dominated-by-another"
     ELSE IF ~c.unchanged THEN "problem-object-modified"
     ELSE "ok"
